@@ -56,8 +56,8 @@ def setup(root):
 
 def _gen_stream(rng, tier):
     style = rng.random()
-    if tier == 'thorough' and rng.random() < 0.02:
-        n = rng.choice([1000, 5000, 33000, 65536])
+    if rng.random() < (0.02 if tier == 'thorough' else 0.003):
+        n = rng.choice([1000, 1100, 2500, 5000, 32767, 32768, 32769, 33000, 65536, 70000])
     else:
         n = rng.choice([0, 1, 2, 3, 5, 8, 13, 21, 40, 80, 200]) if rng.random() < 0.5 else rng.randint(0, 60)
     if style < 0.6:
@@ -73,6 +73,8 @@ def _gen_cuts(rng, stream, delim_positions, timeout):
     """Return deliveries [[gap, nbytes], ...] covering the stream."""
     n = len(stream)
     style = rng.random()
+    if n > 3000:
+        style = 0.3 + 0.3 * style            # long streams: a handful of random cuts only (cost)
     if n == 0:
         cuts = []
     elif style < 0.12:
@@ -125,8 +127,10 @@ def _find_all(stream, delims):
     return out
 
 
-def _gen_split(rng):
+def _gen_split(rng, n=0):
     r = rng.random()
+    if n > 3000:
+        return [0]
     if r < 0.35:
         return [0]
     if r < 0.55:
@@ -182,7 +186,7 @@ def _gen_recv(rng, tier):
             ops2.append(op)
         ops = ops2
     return {'mode': 'recv', 'stream': stream.hex(), 'deliveries': deliveries,
-            'close_gap': _gen_gap(rng, timeout, rng.random()), 'recv_split': _gen_split(rng),
+            'close_gap': _gen_gap(rng, timeout, rng.random()), 'recv_split': _gen_split(rng, len(stream)),
             'timeout': timeout, 'maxsize': maxsize, 'recvsize': recvsize, 'tick': tick, 'ops': ops}
 
 
@@ -236,11 +240,21 @@ def _gen_ns(rng, tier):
                 for _ in range(rng.randint(0, 5))]
         frames.append({'payload': payload.hex(),
                        'pre_gap': round(rng.choice([0, 0, 0.1, 0.9, 1.5, 7.0]), 6), 'cuts': cuts})
-    return {'mode': 'netstring', 'maxsize': maxsize, 'ns_timeout': rng.choice([None, 0.5, 1.0, 10]),
+    case_extra = {}
+    if rng.random() < 0.25:
+        case_extra['writer_timeout'] = rng.choice([0.2, 0.5, 1.0])
+    if rng.random() < 0.03:
+        # scale: payloads beyond any plausible inline/copy threshold
+        maxsize = 1 << 17
+        big = rng.choice([16383, 16384, 20000, 40000, 65536])
+        frames[rng.randrange(len(frames))]['payload'] = (bytes(rng.randrange(256) for _ in range(64)) * (big // 64 + 1))[:big].hex()
+        case_extra['big'] = True
+    return dict(case_extra, **{'mode': 'netstring', 'maxsize': maxsize, 'ns_timeout': rng.choice([None, 0.5, 1.0, 10]),
             'frames': frames, 'sndbuf': rng.choice([1, 3, 16, 1 << 30]),
-            'drains': [[round(rng.choice([0, 0.01, 0.5, 0.9]), 6), rng.choice([1, 2, 5, 64])]
+            'drains': [[round(rng.choice([0, 0.01, 0.5, 0.9]), 6), rng.choice([1, 2, 5, 64, 5000])]
                        for _ in range(rng.randint(0, 10))],
-            'send_split': _gen_split(rng), 'recv_split': _gen_split(rng)}
+            'send_split': _gen_split(rng) if 'big' not in case_extra else [rng.choice([0, 4096, 5000])],
+            'recv_split': _gen_split(rng) if 'big' not in case_extra else [rng.choice([0, 4096, 1000])]})
 
 
 _FIXED = {}
@@ -630,10 +644,18 @@ def _run_ns(case):
     _install_clock(clock)
     # the writer's BufferedSocket has the 10 s default timeout: keep the whole drain script
     # below it so that write_ns never legitimately times out (partial sends are the fault here)
-    drains = [[min(g, 0.9), n] for g, n in case['drains'][:10]]
+    wt = case.get('writer_timeout')
+    if wt:
+        # the writer times out for real (its BufferedSocket inherits the socket's timeout); the caller
+        # then completes the frame with flush() before going on
+        drains = [[g, n] for g, n in case['drains']]
+    else:
+        drains = [[min(g, 0.9), n] for g, n in case['drains'][:10]]
     total = sum(len(f['payload']) // 2 + 12 for f in case['frames'])
     wsock = SimSocket(clock, log, sndbuf=case['sndbuf'], drains=drains,
-                      send_split=case['send_split'], call_cap=4 * total + 40)
+                      send_split=case['send_split'], call_cap=4 * total + 40 + 40 * len(drains))
+    if wt:
+        wsock._timeout = float(wt)
     maxsize = case['maxsize']
     w = su.NetstringSocket(wsock, maxsize=maxsize)
     payloads = [bytes.fromhex(f['payload']) for f in case['frames']]
@@ -658,6 +680,30 @@ def _run_ns(case):
         except StepCapExceeded:
             out.fail('no-progress', i, 'write_ns made more send() calls than any correct run needs', op='write_ns')
             break
+        except su.Timeout as e:
+            if not wt:
+                out.fail('unexpected-exception', i, 'write_ns raised %r' % (e,), op='write_ns', exc='Timeout')
+                break
+            out.fault('ns_write_timeout')
+            classes.add('ns_write_timeout_then_flush')
+            done = False
+            for _try in range(20 + 4 * len(drains)):
+                try:
+                    w.bsock.flush()
+                    done = True
+                    break
+                except su.Timeout:
+                    continue
+                except StepCapExceeded:
+                    break
+                except Exception as e2:
+                    out.fail('unexpected-exception', i, 'flush after a write_ns Timeout raised %r' % (e2,), op='flush')
+                    break
+            if out.violation:
+                break
+            if not done:
+                out.fail('no-progress', i, 'flush() after a write_ns Timeout never completed', op='flush')
+                break
         except Exception as e:
             out.fail('unexpected-exception', i, 'write_ns raised %r' % (e,), op='write_ns', exc=type(e).__name__)
             break
